@@ -72,6 +72,18 @@ example : (match unifyF 20 Subst.id [] (pair (num 1) (num 2)) (named (num 1) (nu
 example : (match unifyF 20 Subst.id [] (pair (.var 0) (num 2)) (.cons (.var 0) (.cons (num 2) .nil)) with | some none => true | _ => false) = true := by decide
 /-- occurs check through a nested compound -/
 example : (match unifyF 20 Subst.id [] (.var 0) (named (num 1) (pair (.var 0) (num 2))) with | some none => true | _ => false) = true := by decide
+/-- an `Option` field is a compound object with one child (`Some`) or none (`None`), of ONE type: `Some(x)` never
+    unifies with `None` (the children lists have different lengths), inside a struct as well — and the occurs
+    check goes through it -/
+private def optSome (x : Term) : Term := .comp 4 (.cons x .nil)
+private def optNone : Term := .comp 4 .nil
+private def slot (o t : Term) : Term := .comp 3 (.cons o (.cons t .nil))
+example : (match unifyF 20 Subst.id [] (optSome (.var 0)) optNone with | some none => true | _ => false) = true := by decide
+example : (match unifyF 20 Subst.id [] (slot (optSome (pair (.var 0) (num 1))) (num 7)) (slot optNone (num 7)) with
+    | some none => true | _ => false) = true := by decide
+example : (match unifyF 20 Subst.id [] (slot (optSome (pair (.var 0) (num 1))) (.var 1)) (slot (optSome (pair (num 5) (.var 2))) (num 7)) with
+    | some (some (σ, _)) => σ 0 == num 5 && σ 1 == num 7 && σ 2 == num 1 | _ => false) = true := by decide
+example : (match unifyF 20 Subst.id [] (.var 0) (slot (optSome (pair (.var 0) (num 1))) (num 7)) with | some none => true | _ => false) = true := by decide
 end Examples
 
 end Pv
